@@ -7,8 +7,9 @@
    that no loop runs without consuming input. Decoders from libraries (gzip,
    tar, yaml, json, ini, base64) are not modelled; they are exercised by the
    harness's malformed streams (exploration, not proof). *)
-From Apko Require Import Base.Prelude Base.C16Lib Model.Formats Model.Parsers Spec.ParsersSpec
-  Proofs.ParsersProofs Proofs.ReadersProofs Proofs.SortTermination Generated.FieldLetters Generated.Regexes Generated.C15Sites.
+From Coq Require Import Relations.Relation_Operators.
+From Apko Require Import Base.Prelude Base.C16Lib Model.Formats Model.Parsers Model.Parsers2 Spec.ParsersSpec
+  Proofs.ParsersProofs Proofs.ReadersProofs Proofs.SortTermination Proofs.Parsers2Proofs Generated.FieldLetters Generated.Regexes Generated.C15Sites.
 
 (* ParsePackageIndex: for every base64 decoder, every token limit and every input *)
 Theorem c15_no_panic_parse_index : forall dec s, Returns (parse_index dec s).
@@ -236,6 +237,155 @@ Proof.
   intros. split; [apply load_chain_fixed_ok|]. intros H N. apply load_chain_fixed_same; [exact H|intros x _ []|exact N].
 Qed.
 Print Assumptions c15_include_fix_conservative.
+
+(* ======================================================================== *)
+(* Session 4 (Model/Parsers2.v).                                              *)
+
+(* ---- ImageConfiguration.Load on a file tree, with paths.ResolvePath (the requested path itself if it
+   exists seen from the working directory, else the first include path under which it does). One file
+   reached through different spellings is one file: whenever the resolved paths lead back to one of
+   themselves — whatever the spellings along the way — the loader never returns (finding C15-F6). The
+   statement is about ANY resolver and ANY way of reading a file, the file tree being one instance. *)
+Theorem c15_include_cycle_any_spelling : forall resolve content rp rq,
+  clos_refl_trans _ (rnext resolve content) rp rq -> clos_trans _ (rnext resolve content) rq rq ->
+  forall fuel, chain_r resolve content fuel rp = OutOfFuel.
+Proof. exact chain_r_reach_cycle_diverges. Qed.
+Print Assumptions c15_include_cycle_any_spelling.
+(* witnesses on file trees: a.yaml -> ./a.yaml; a.yaml -> sub/../a.yaml; a file found through the include
+   path that includes its own base name; a.yaml -> ./b.yaml -> sub/../a.yaml; relative -> absolute -> relative *)
+Theorem c15_include_cycle_spellings_refuted :
+  (forall fuel, load_config fuel fs_dot [] "a.yaml" = OutOfFuel) /\
+  (forall fuel, load_config fuel fs_updown [] "a.yaml" = OutOfFuel) /\
+  (forall fuel, load_config fuel fs_incpath ["inc"%string] "inc/a.yaml" = OutOfFuel) /\
+  (forall fuel, load_config fuel fs_two [] "a.yaml" = OutOfFuel) /\
+  (forall fuel, load_config fuel fs_abs [] "a.yaml" = OutOfFuel).
+Proof.
+  exact (conj spelling_dot_diverges (conj spelling_updown_diverges (conj spelling_incpath_diverges (conj spelling_two_diverges spelling_abs_diverges)))).
+Qed.
+Print Assumptions c15_include_cycle_spellings_refuted.
+(* the chain of session 3 (a file = its include field, a path = itself) is the instance of the general
+   chain in which every path resolves to itself: c15_include_cycle_refuted lies inside the envelope above *)
+Theorem c15_include_abstract_is_instance : forall fs fuel p,
+  load_chain fuel fs p = chain_r (fun q => Some q) (fun q => match alookup q fs with Some inc => Some (q, inc) | None => None end) fuel p.
+Proof. exact load_chain_is_chain_r. Qed.
+Print Assumptions c15_include_abstract_is_instance.
+(* bounded work without a cycle: whatever today's loader returns with any fuel, it returns with one unit
+   of fuel per file of the tree plus two — a chain that ends loads at most |files| + 1 files *)
+Theorem c15_include_chain_fuel_bound : forall fs incs p fuel r,
+  load_config fuel fs incs p = r -> r <> OutOfFuel -> load_config (S (S (List.length (cf_files fs)))) fs incs p = r.
+Proof. exact load_config_bound. Qed.
+Print Assumptions c15_include_chain_fuel_bound.
+(* the repair (fixes/C15-F6.patch compares RESOLVED PATHS AS TEXT): it ends on every tree, every include
+   path list and every request — a cycle through k spellings is refused after at most k extra files —
+   and it changes nothing where today's loader returns *)
+Theorem c15_include_fix_terminates_on_trees : forall fs incs p,
+  Returns (load_config_fixed (S (S (List.length (cf_files fs)))) fs incs p).
+Proof. exact load_config_fixed_returns. Qed.
+Print Assumptions c15_include_fix_terminates_on_trees.
+Theorem c15_include_fix_conservative_on_trees : forall fs incs p fuel,
+  (forall r, load_config fuel fs incs p = r -> r <> OutOfFuel -> load_config_fixed fuel fs incs p = r) /\
+  (forall l, load_config_fixed fuel fs incs p = Ok l -> load_config fuel fs incs p = Ok l).
+Proof. intros. split; [intros r; apply load_config_fixed_conservative|intros l; apply load_config_fixed_ok]. Qed.
+Print Assumptions c15_include_fix_conservative_on_trees.
+
+(* ---- the sites that were exploration-only: index < length at every one, for every input ------------ *)
+Theorem c15_no_panic_alpine_version : forall matched, Returns (alpine_version_skel matched).
+Proof. exact alpine_version_skel_returns. Qed.
+Print Assumptions c15_no_panic_alpine_version.
+Theorem c15_no_panic_fetch_offline : forall n, Returns (fetch_offline_skel n).
+Proof. exact fetch_offline_skel_returns. Qed.
+Print Assumptions c15_no_panic_fetch_offline.
+Theorem c15_no_panic_etag : forall present vals, Returns (etag_skel present vals).
+Proof. exact etag_skel_returns. Qed.
+Print Assumptions c15_no_panic_etag.
+(* ResolveApk after Split: for every number of parts, and Split hands over two or three *)
+Theorem c15_no_panic_resolve_apk : (forall n, Returns (resolve_apk_select n)) /\ (forall ms n, split_parts ms = Ok n -> n = 2%nat \/ n = 3%nat).
+Proof. exact (conj resolve_apk_select_returns split_parts_2_or_3). Qed.
+Print Assumptions c15_no_panic_resolve_apk.
+Theorem c15_no_panic_control_value : forall wanted text, Returns (control_values wanted text).
+Proof. exact control_values_returns. Qed.
+Print Assumptions c15_no_panic_control_value.
+Theorem c15_no_panic_busybox_version : forall n_matches, Returns (busybox_version_skel n_matches).
+Proof. exact busybox_version_skel_returns. Qed.
+Print Assumptions c15_no_panic_busybox_version.
+Theorem c15_no_panic_env_auth : forall env, Returns (env_auth_skel env).
+Proof. exact env_auth_skel_returns. Qed.
+Print Assumptions c15_no_panic_env_auth.
+Theorem c15_no_panic_annotation : forall s, Returns (annotation_skel s).
+Proof. exact annotation_skel_returns. Qed.
+Print Assumptions c15_no_panic_annotation.
+Theorem c15_no_panic_conflict_name : forall c, Returns (conflict_name c).
+Proof. exact conflict_name_returns. Qed.
+Print Assumptions c15_no_panic_conflict_name.
+(* groupByOriginAndSize's cut, for every number of groups and every budget buildLayers lets through
+   (c15_layer_budget_guard_pinned); the missing part: budget = math.MinInt64 handed to the function
+   directly wraps around (budget-1) and the slice expression panics *)
+Theorem c15_layer_cutoff_partial : forall len budget, (0 <= budget < two63z)%Z -> Returns (layer_cutoff len budget).
+Proof. exact layer_cutoff_returns. Qed.
+Print Assumptions c15_layer_cutoff_partial.
+Theorem c15_layer_cutoff_min_int_refuted : exists len, layer_cutoff len (- two63z) = Panic.
+Proof. exists 1%Z. exact layer_cutoff_min_int_panics. Qed.
+Print Assumptions c15_layer_cutoff_min_int_refuted.
+(* RepositoryWithIndex.RepoAbbr (exported, no caller inside apko): a URI without "/" panics *)
+Theorem c15_repo_abbr_partial : forall uri, has_char ch_slash uri = true -> Returns (repo_abbr uri).
+Proof. exact repo_abbr_returns. Qed.
+Print Assumptions c15_repo_abbr_partial.
+Theorem c15_repo_abbr_refuted : exists uri, repo_abbr uri = Panic.
+Proof. exists "repo"%string. exact repo_abbr_no_slash_panics. Qed.
+Print Assumptions c15_repo_abbr_refuted.
+Theorem c15_sites_pinned_2 :
+  (alpine_version_sites, alpine_version_len_guards, alpine_repo_groups) = (["_[1]"], ["len(_) < 2"], 1%nat)%string /\
+  (fetch_offline_sites, fetch_offline_len_guards) = (["_[0]"; "_[1:]"], ["len(_) == 0"])%string /\
+  (etag_sites, etag_len_guards) = (["_[0]"; "_[0]"], ["len(_) == 0"])%string /\
+  (resolve_apk_sites, resolve_apk_len_guards) = (["_[0]"; "_[0]"; "_[1]"; "_[1]"; "_[2]"; "_[:]"], ["len(_) < 2"; "len(_) == 3"])%string /\
+  (control_value_sites, control_value_len_guards) = (["_[0]"; "_[1]"], ["len(_) != 2"])%string /\
+  (busybox_links_sites, busybox_links_len_guards, busybox_semver_groups) = (["_[0]"; "_[0]"; "_[0][1]"], ["len(_) != 1"; "len(_[0]) < 4"], 5%nat)%string /\
+  (env_auth_sites, env_auth_len_guards) = (["_[0]"; "_[1]"; "_[2]"; "_[3]"], ["len(_) != 4"])%string /\
+  (remove_label_sites, remove_label_len_guards, remove_label_loop_shape) = (["_[1]"], ["len(_) < 2"], ("HasPrefix @", " ", 2%Z))%string /\
+  (annotations_len_guards, constrain_sites, constrain_len_guards) = (["len(_) != 2"], ["_[1:]"], [])%string /\
+  (group_by_origin_sites, repo_abbr_sites, repo_abbr_len_guards) = (["_[:_]"; "_[_:]"], ["_[len(_)-2:]"], [])%string /\
+  (user_parse_len_guards, group_parse_len_guards) = (["len(_) != 7"], ["len(_) != 4"])%string /\
+  (user_parse_sites, group_parse_sites) = (["_[0]"; "_[1]"; "_[2]"; "_[2]"; "_[3]"; "_[3]"; "_[4]"; "_[5]"; "_[6]"], ["_[0]"; "_[1]"; "_[2]"; "_[2]"; "_[3]"; "_[3]"])%string /\
+  (parse_index_sites, parse_index_len_guards) = (["_[1:2]"; "_[2:]"; "_[2:]"; "_[:1]"], ["len(_) < 2"; "len(_) == 0"])%string /\
+  (parse_installed_sites, parse_installed_len_guards) = (["_[1:2]"; "_[2:]"; "_[2:]"; "_[:1]"; "_[len(_)-1]"; "_[len(_)-1]"], ["len(_) < 2"])%string /\
+  (* IndexFromArchive reads its members with io.ReadAll: no index, no slice, and no buffer sized from the header *)
+  (index_from_archive_sites, index_from_archive_len_guards, index_archive_sized_reads) = ([], [], 0%nat).
+Proof. repeat split. Qed.
+Print Assumptions c15_sites_pinned_2.
+
+(* ---- the hang side: bounded work ---------------------------------------------------------------------
+   RemoveLabel (`apko lock`: "@label url" repository lines), the one loop over untrusted text that does
+   not walk a list: as many turns as the text has bytes are enough, for every text *)
+Theorem c15_remove_label_fuel : forall s, Returns (remove_label (String.length s) s).
+Proof. exact remove_label_returns. Qed.
+Print Assumptions c15_remove_label_fuel.
+(* the five scanner loops run once per delivered line: at most |input| + 1 turns, whatever the token limit *)
+Theorem c15_scanner_turns_bounded : forall max s, (List.length (fst (scan_lines max s)) <= S (String.length s))%nat.
+Proof. exact scan_lines_bounded. Qed.
+Print Assumptions c15_scanner_turns_bounded.
+(* strings.Fields: one look at every byte, and no more fields than bytes *)
+Theorem c15_fields_work_bounded : forall s, List.length (space_mask s 0) = String.length s /\ (List.length (go_fields s) <= String.length s)%nat.
+Proof. intro s. exact (conj (space_mask_length s 0) (go_fields_length s)). Qed.
+Print Assumptions c15_fields_work_bounded.
+
+(* non-vacuity *)
+Example c15_member_kinds_example :
+  expand_apk [MPlain; MJunk] false = Err /\ expand_apk [MPlain; MZero; MJunk] false = Ok false /\
+  expand_apk [MSign; MJunk; MPlain] false = Err /\ expand_apk [MSign; MZero; MEmpty] false = Ok true /\
+  expand_apk [MPlain; MEmpty; MJunk] false = Err /\ split_parts [MSign; MJunk; MJunk] = Ok 3%nat /\ split_parts [MJunk] = Err.
+Proof. vm_compute. repeat split. Qed.
+Example c15_load_config_example :
+  load_config 5 (mkCfs ["w"] w_dirs [(["w"; "a.yaml"], ("a", Some "inc/b.yaml")); (["w"; "inc"; "b.yaml"], ("b", Some "c.yaml")); (["w"; "inc"; "c.yaml"], ("c", Some ""))])%string
+    ["inc"%string] "./a.yaml" = Ok ["a"; "b"; "c"]%string /\
+  (* the kernel, unlike path.Clean, wants every directory on the way to exist *)
+  load_config 5 (mkCfs ["w"] w_dirs [(["w"; "a.yaml"], ("a", Some "missing/../a.yaml"))])%string [] "a.yaml" = Err /\
+  load_config_fixed 3 fs_dot [] "a.yaml" = Err /\ load_config_fixed 4 fs_two [] "a.yaml" = Err.
+Proof. vm_compute. repeat split. Qed.
+Example c15_sites2_examples :
+  control_values (fun k => k =? "datahash")%string ("pkgname = a" +++ s_nl +++ "datahash = abc" +++ s_nl +++ "x=y=z" +++ s_nl +++ "datahash=" +++ s_nl) = Ok [("datahash", "abc"); ("datahash", "")]%string /\
+  remove_label 9 "@a @b url" = Ok "url"%string /\ remove_label 2 "@a" = Err /\ conflict_name "!" = Ok (Some ""%string) /\
+  layer_cutoff 5 0 = Ok 0%Z /\ layer_cutoff 5 3 = Ok 2%Z /\ layer_cutoff 2 3 = Ok 2%Z /\ repo_abbr "https://r/os/x86_64" = Ok "os/x86_64"%string.
+Proof. vm_compute. repeat split. Qed.
 
 (* non-vacuity: the readers do return results on well-formed input *)
 Example c15_parse_installed_example :
